@@ -14,13 +14,13 @@ BUILT = {
 }
 NOTE = "Trusts Lean's kernel, axioms propext/Classical.choice/Quot.sound, the hand-written model under lean/TdfModel and the correspondence harness (differential testing); numpy/CPython primitives are modelled, not verified (DESIGN.md §4)."
 BUILT.update({
-    "C01": ("Lean 4 round-trip theorems dec(enc x ++ rest) = (x, rest) for all nine block models (induction over item lists and frame masks) + seeded correspondence of model enc/dec with _write/_build",
-            "Proof over the model for every valid block of the nine types (unbounded items, frames, masks); tied to /repo by byte-equality of encodings and equality of decoded values on seeded shape-directed blocks, each also judged by decode(encode(x)) == x on the real code.",
+    "C01": ("Lean 4 round-trip theorems dec(enc x ++ rest) = (x, rest) for all nine block models (induction over item lists and frame masks) + seeded correspondence of model enc/dec with _write/_build, incl. arrays of four provenances and object life cycles (use, edit in place, use again)",
+            "Proof over the model for every valid block of the nine types (unbounded items, frames, masks); tied to /repo by byte-equality of encodings and equality of decoded values on seeded shape-directed blocks and on blocks edited in place after a first use, each also judged by decode(encode(x)) == x on the real code.",
             NOTE, "DESIGN.md §6 C01"),
-    "C02": ("Lean 4 theorems (enc x).length = size x with size mirroring nBytes term by term, exact consumption from the round-trip law, nested items + correspondence of the three numbers incl. the BTS capture vs its jump table",
+    "C02": ("Lean 4 theorems (enc x).length = size x with size mirroring nBytes term by term, exact consumption from the round-trip law, nested items, raw tracks with arbitrary float content (item_raw_track: no validity assumption on samples) + correspondence of the three numbers incl. life cycles, non-finite components and the BTS capture vs its jump table",
             "Proof over the model for all valid blocks and nested items; tied to /repo by comparing nBytes / bytes written / bytes consumed on seeded blocks and on the 8 capture blocks.",
             NOTE, "DESIGN.md §6 C02"),
-    "C05": ("Lean 4 theorems on the run-length codec (runs canonical, cover exactly, fill∘runs = id, byte-level round trip) for all n and all 2^n masks + exhaustive small-mask correspondence with dirty-heap double decode",
+    "C05": ("Lean 4 theorems on the run-length codec (runs canonical, cover exactly, fill∘runs = id, byte-level round trip) for all n and all 2^n masks, the presence rule on raw rows (raw_rows_cover) + exhaustive small-mask correspondence with dirty-heap double decode, every in-place mask transition for n<=4 and rows with single non-finite components",
             "Proof over the model for every mask; the real code is compared on all masks n<=10 (quick) / n<=12 (thorough) for four track kinds; uninitialised-memory exposure is explored on the real decoder only (a model cannot exhibit it).",
             NOTE, "DESIGN.md §6 C05"),
     "C12": ("Lean 4 non-interference theorem proved once by induction over decoder programs of a free monad (take/skip/str), scramble corollaries for header, entry and nine blocks + scrambling correspondence with hostile bytes",
@@ -30,10 +30,10 @@ BUILT.update({
 BUILT["C06"] = ("Lean 4 layout theorems (little-endian fields, header 64 / entry 288 with field offsets, reserved zeros, string and track layout, EMG bias, Tdf.new image) with the Lean encoders/decoders as the independent layout-driven codec; two-way inverse from C01+C12+C02; + byte-equality correspondence both directions incl. the BTS capture",
             "The model's encoders are the independent encoder of the property; theorems pin the layout for all values; real _write output is compared byte for byte, real decoders run on model-encoded bytes, entries/headers/Tdf.new likewise, and the capture (8 blocks, pinned sha-256) is decoded by both and compared in full.",
             NOTE + " The capture checks are tests on one input.", "DESIGN.md §6 C06")
-BUILT["C08"] = ("Lean 4 theorems on the access-mode state machine (allow_write/enter/exit/mutators/readers incl. implicit contexts): disk changes only through a mutator with a writable handle, such a handle only comes from enter-after-allow_write, every other mode refuses, readers pure, implicit handles closed; + exhaustive mutator/reader x mode matrix and seeded interleavings on the real object",
-            "Proof over the model for every state and trace; the real Tdf object is driven through the full matrix (8 mutators + 20 readers x 7 modes) and seeded interleavings, observing raised?/bytes changed?/handler.closed, judged by the model and by an independent python reference monitor.",
-            NOTE + " Which of decorator/PermissionError/closed handle/read-only handle refuses a call is not modelled, only that it raises; nested with-blocks on one object are outside.", "DESIGN.md §6 C08")
-BUILT["C17"] = ("Lean 4 theorems on a finite-map file system model of Tdf.new / copy / open (new image well-formed, existing targets refused and untouched, copy identical and independent, missing / bad-signature open refused) + all target kinds on the real file system",
+BUILT["C08"] = ("Lean 4 theorems on the access-mode state machine (allow_write/enter/exit/mutators/readers incl. implicit contexts): disk changes only through a mutator with a writable handle, such a handle only comes from enter-after-allow_write, every other mode refuses, readers pure, implicit handles closed, any_exit_ends_write_access for every trace incl. nested contexts; + exhaustive mutator/reader x mode matrix and seeded interleavings on the real object",
+            "Proof over the model for every state and trace; the real Tdf object is driven through the full matrix (8 mutators + 22 readers x 11 modes, four of them nested `with` on one object) and seeded interleavings, observing raised?/bytes changed?/handler.closed, judged by the model and by an independent python reference monitor.",
+            NOTE + " Which of decorator/PermissionError/closed handle/read-only handle refuses a call is not modelled, only that it raises;", "DESIGN.md §6 C08")
+BUILT["C17"] = ("Lean 4 theorems on a finite-map file system model of Tdf.new / copy / open (new image well-formed, existing targets refused and untouched, copy identical and independent, missing / bad-signature open refused; long-lived objects: every context entry judges the file as it is now, enter_checks_every_time over any history of replacements) + all target kinds and scripted long-lived-object scenarios on the real file system",
             "Proof over the model for every file system and path; the real functions are run on every target kind (absent, TDF, non-TDF, empty, directory), with sources reached by histories and later mutations of copy/original; bytes before/after and exception classes compared, new files judged by Lean's wfB/compactB.",
             NOTE + " The exists()/open race is OS behaviour and not modelled.", "DESIGN.md §6 C17")
 BUILT["C15"] = ("Lean 4 invariant proof (lists aligned, channels Nodup) preserved by every edit of the three channel-mapped block kinds and every history; survivors keep their channel (removal erases one pair), add appends a pair, taken explicit channel refused, automatic channel fresh; + seeded edit histories on real blocks from empty / constructor-filled / decoded starts",
@@ -42,13 +42,13 @@ BUILT["C15"] = ("Lean 4 invariant proof (lists aligned, channels Nodup) preserve
 BUILT["C16"] = ("Lean 4 invariant (every held track has the block's frame count) preserved by every add/assign history; refused add unchanged; assign_all_or_nothing as an equation (installs exactly the list iff every element is acceptable and the iterable does not raise); + seeded call sequences on real Data3D / ForceTorque3D / EMG blocks",
             "Proof over the model for all call sequences; real blocks are driven with wrong-length tracks, foreign objects at every list position, raising generators and non-iterables, comparing the identity of the held tracks after every call.",
             NOTE, "DESIGN.md §6 C16")
-BUILT["C18"] = ("Lean 4 lemmas on one labelled list: index = iteration (incl. negative indices), label lookup returns the first match, contains <-> lookup succeeds, KeyError/IndexError/TypeError cases; + real blocks of four kinds x all key kinds",
+BUILT["C18"] = ("Lean 4 lemmas on one labelled list: index = iteration (incl. negative indices), label lookup returns the first match, contains <-> lookup succeeds, KeyError/IndexError/TypeError cases, membership for every kind of key (memberOf); + real blocks of four kinds x all key kinds incl. exotic labels and keys that a sloppy comparison would identify with a present label",
             "Proof over the model for every list and key; four real block kinds with duplicate/empty/near-equal labels are probed with every integer in range and beyond, labels, items and foreign key types; identity of results, exception classes and unchanged encoding compared.",
             NOTE, "DESIGN.md §6 C18")
-BUILT["C19"] = ("Lean 4 decision-logic theorems (accept <-> exactly the required shape; viewport halves: 2-element array/list/tuple; viewport parameter; coupled arrays (n,3); event refusals; accepted => encoded length = field width) + exhaustive enumeration of shapes rank 0-3 / extents 0-4 x dtypes and non-arrays against all 25 validated constructor arguments",
+BUILT["C19"] = ("Lean 4 decision-logic theorems (accept <-> exactly the required shape; viewport halves: 2-element array/list/tuple; viewport parameter; coupled arrays (n,3); event refusals; accepted => encoded length = field width; constructors with several geometry arguments accept iff EACH argument fits: all_iff_each) + exhaustive enumeration of shapes rank 0-3 / extents 0-4 x dtypes and non-arrays against all 25 validated constructor arguments, plus related pairs of wrong arguments for the multi-argument constructors",
             "Proof over the model for all argument kinds and shapes; the real constructors are enumerated exhaustively over the finite shape space the property names, comparing accept/refuse with the model and checking nBytes = bytes written for every accepted object.",
             NOTE + " Acceptance is modelled as a function of kind and shape only.", "DESIGN.md §6 C19")
-BUILT["C20"] = ("Lean 4 separation theorems on an object-store model (fresh allocation by every constructor/decode call, edits touch one cell only, instance_independent over any interleaving, a block built without items is empty whatever happened before, decode twice = two independent instances) + seeded interleavings over 2-4 real instances of seven block classes",
+BUILT["C20"] = ("Lean 4 separation theorems on an object-store model (fresh allocation by every constructor/decode call, edits touch one cell only, instance_independent over any interleaving, a block built without items is empty whatever happened before, decode twice = two independent instances, list assignment installs items in a container of the instance's own: assign_separate) + seeded interleavings over 2-4 real instances of seven block classes",
             "Proof over the store model; real instances are created (with/without own item lists), decoded twice, edited and encoded in seeded interleavings, and after every step the items (by identity) and encoding of every instance are compared with the model.",
             NOTE + " This property is about CPython object identity; the store model is only as good as the correspondence.", "DESIGN.md §6 C20")
 BUILT["C14"] = ("Lean 4 theorems eq a b = true <-> a = b for the nine block equalities as implemented (byte-level ones via injectivity of enc from C01; field-wise ones via zipAll + length/channel-map guards), eq with decode(encode a), append detected, file equality; + real == on generated pairs (same / rebuilt / round-tripped / one change / +-1 item) and on pairs of files",
@@ -59,10 +59,10 @@ BUILT.update({
     "C03": (CONT + "corollary wfB(image)=true; + seeded history correspondence with Lean's wfB judging the real bytes after every call",
             "Proof over the model for every finite history from every compact start state and every table length; tied to /repo by running seeded histories on real files and on the model, comparing the file abstraction and Tdf.entries after every call; Lean's decidable WF predicate judges the real bytes.",
             NOTE + " Start states are compact files; blocks are assumed to satisfy C02 (honest sizes); files stay below 2 GiB.", "DESIGN.md §6 container"),
-    "C04": (CONT + "frame theorems on the list spec (other types untouched, removed absent, replace keeps comment) and payload_read; + reference-dict oracle on real files",
+    "C04": (CONT + "frame theorems on the list spec (other types untouched, removed absent, replace keeps comment) and payload_read; + reference-dict oracle on real files, incl. block objects handed over again after in-place edits",
             "Proof over the model (frame conditions are list lemmas after the refinement); real files are parsed independently after every call and compared with a python reference of the history, plus read-back through get_block.",
             NOTE, "DESIGN.md §6 container"),
-    "C07": ("Lean 4 theorems: add/remove rejected => state unchanged for EVERY state and cause; replace/setters atomic on well-formed layouts (add cannot fail after the remove); continuation equivalence; + fault-injection correspondence (sha before/after, twin file)",
+    "C07": ("Lean 4 theorems: add/remove rejected => state unchanged for EVERY state and cause; replace/setters atomic on well-formed layouts (add cannot fail after the remove); continuation equivalence; + fault-injection correspondence (sha before/after, twin file; causes incl. dates that do not fit the on-disk field)",
             "Proof over the model; on the real code every rejection cause x reachable states x position of the failing element is exercised, with sha-256 before/after and a twin-file continuation.",
             NOTE, "DESIGN.md §6 container"),
     "C09": (CONT + "corollaries compactB(image)=true, file length formula, add grows / remove shrinks by exactly the size; + history correspondence with Lean's compactB on the real bytes",
